@@ -59,7 +59,8 @@ def generate(rng, seed, tier='quick'):
         for c in range(1, n):
             trials.append({'cuts': [c], 'gap_us': rng.choice([0, 1, 50]), 'end': 'eof', 'end_off': n})
         for e in range(0, n + 1):
-            trials.append({'cuts': [], 'gap_us': 0, 'end': rng.choice(['eof', 'eof', 'reset']), 'end_off': e})
+            trials.append({'cuts': [], 'gap_us': 0, 'end': rng.choice(['eof', 'eof', 'reset']), 'end_off': e,
+                           'reopen': rng.random() < 0.5})
         # byte-by-byte
         trials.append({'cuts': list(range(1, n)), 'gap_us': 1, 'end': 'none', 'end_off': n})
         exhaustive = True
@@ -83,7 +84,7 @@ def generate(rng, seed, tier='quick'):
             end_off = n if rng.random() < 0.5 else (min(n, rng.choice(bounds) + rng.randint(0, 12)) if rng.random() < 0.7
                                                     else rng.randint(0, n))
             trials.append({'cuts': sorted(set(c for c in cuts if 0 < c < n)), 'gap_us': rng.choice([0, 1, 2, 50]),
-                           'end': end, 'end_off': end_off})
+                           'end': end, 'end_off': end_off, 'reopen': end != 'none' and rng.random() < 0.5})
     return {'engine': 'framing', 'property': 'C06', 'seed': seed,
             'config': {'face': rng.choice(['tcp', 'tcp', 'unix']), 'turn_cost_us': rng.choice([0, 0, 1])},
             'packets': [p.hex() for p in pkts], 'trials': trials, 'exhaustive': exhaustive}
@@ -105,10 +106,21 @@ def _run_trial(sc, trial, agg):
         face.callback = cb
         state = {}
 
+        got2 = []
+
         async def main():
             await face.open()
             await face.run()
             state['run_returned'] = True
+            if trial.get('reopen') and trial['end'] in ('eof', 'reset'):
+                # the application connects again with the SAME face object: a fresh stream, nothing carried over
+                async def cb2(typ, buf):
+                    got2.append((typ, bytes(buf)))
+                face.callback = cb2
+                await face.open()
+                state['reopened'] = True
+                await face.run()
+                state['run2_returned'] = True
         w.loop.call_soon(lambda: state.setdefault('task', w.loop.create_task(main())))
         end_off = min(trial['end_off'], len(stream))
         data = stream[:end_off]
@@ -136,11 +148,24 @@ def _run_trial(sc, trial, agg):
             w.at(t, peer.eof)
         elif trial['end'] == 'reset':
             w.at(t, peer.reset)
+        stream2 = tlvref.tlv(6, tlvref.name_tlv(tlvref.name_from_uri('/second/1')) + tlvref.tlv(0x15, b'abc')) + \
+            tlvref.tlv(5, tlvref.name_tlv(tlvref.name_from_uri('/second/2')) + tlvref.tlv(0x0a, b'\x00\x00\x00\x01'))
+        if trial.get('reopen') and trial['end'] in ('eof', 'reset'):
+            w.at(t + 1000, lambda: peer.feed(stream2))
+            w.at(t + 1010, peer.eof)
         limit = w.run()
         if limit:
             agg['limit'] = limit
             return
         exp_pkts, rest = tlvref.frame_stream(data)
+        if trial.get('reopen') and trial['end'] in ('eof', 'reset') and state.get('run_returned'):
+            agg['stats']['fault.reopen'] += 1
+            exp2, _r2 = tlvref.frame_stream(stream2)
+            if not state.get('reopened') or got2 != exp2:
+                w.violate('C06', 'framing-reopen', sc['config']['face'], 'stream_face.run',
+                          f'stream={len(stream)}B end={trial["end"]}@{end_off}: after re-opening the same face object the '
+                          f'callback received {[(t_, len(b)) for t_, b in got2]} for a fresh stream of '
+                          f'{[(t_, len(b)) for t_, b in exp2]} (reopened={bool(state.get("reopened"))})')
         if trial['end'] == 'reset':
             # asyncio hands buffered bytes over before raising the stored exception only partly: a reset
             # discards nothing already framed; packets completely received before the reset must be delivered
